@@ -266,6 +266,71 @@ theorem adder_view_bounds {α γ : Type} (K : View.Kind α γ) (O : View.Ords) (
     ∃ k, hb ≤ k ∧ k ≤ (s.contribs x).length ∧ a = K.pre (s.contribs x) k :=
   (View.reach_inv K O s hr).gotOk x a hb hg
 
+/-- **value_view_bounds.**  The whole `value()`: if the reader has loaded slots `0 … n-1`, there is ONE
+choice `k` of a prefix per slot, `hb x ≤ k x ≤ completed x` for every slot, such that the list of loaded
+values is the list of the prefix values `K.pre (contribs x) (k x)` — hence every aggregate `agg` of the
+loads (the sum for the adder, the component-wise sum for the summer, the version-filtered max / min fold
+for the comparers) equals the same aggregate of those prefix values. -/
+theorem value_view_bounds {α γ β : Type} (K : View.Kind α γ) (O : View.Ords) (s : View.State α γ)
+    (hr : Reachable (· = View.State.init K) (View.Step K O) s) (n : Nat)
+    (hall : ∀ x, x < n → (s.got x).isSome = true) (agg : List α → β) :
+    ∃ k : Nat → Nat,
+      (∀ x, x < n → ∃ a hb, s.got x = some (a, hb) ∧ hb ≤ k x ∧ k x ≤ (s.contribs x).length) ∧
+      agg (View.loads s n) = agg ((List.range n).map (fun x => K.pre (s.contribs x) (k x))) := by
+  obtain ⟨k, h1, h2⟩ := View.loads_prefix K O (View.reach_inv K O s hr) n hall
+  exact ⟨k, h1, by rw [h2]⟩
+
+/-- the four counter kinds by name: adder (`Σ`), summer (`(Σ sum, Σ num)`, the pair is one message),
+maxer / miner (the fold of `value(T&)` over slots holding `put`-prefixes) -/
+theorem adder_value_view (O : View.Ords) (s : View.State Int Int)
+    (hr : Reachable (· = View.State.init View.adderKind) (View.Step View.adderKind O) s) (n : Nat)
+    (hall : ∀ x, x < n → (s.got x).isSome = true) :
+    ∃ k : Nat → Nat,
+      (∀ x, x < n → ∃ a hb, s.got x = some (a, hb) ∧ hb ≤ k x ∧ k x ≤ (s.contribs x).length) ∧
+      sumInts (View.loads s n) =
+        sumInts ((List.range n).map (fun x => View.adderKind.pre (s.contribs x) (k x))) :=
+  value_view_bounds View.adderKind O s hr n hall sumInts
+
+theorem summer_value_view (O : View.Ords) (s : View.State Summer.Cell Summer.Cell)
+    (hr : Reachable (· = View.State.init View.summerKind) (View.Step View.summerKind O) s) (n : Nat)
+    (hall : ∀ x, x < n → (s.got x).isSome = true) :
+    ∃ k : Nat → Nat,
+      (∀ x, x < n → ∃ a hb, s.got x = some (a, hb) ∧ hb ≤ k x ∧ k x ≤ (s.contribs x).length) ∧
+      Summer.sumCells (View.loads s n) =
+        Summer.sumCells ((List.range n).map (fun x => View.summerKind.pre (s.contribs x) (k x))) :=
+  value_view_bounds View.summerKind O s hr n hall Summer.sumCells
+
+theorem comparer_value_view (isMax : Bool) (ver : Nat) (O : View.Ords) (s : View.State Cmp.Slot (Nat × Int))
+    (hr : Reachable (· = View.State.init (View.cmpKind isMax)) (View.Step (View.cmpKind isMax) O) s) (n : Nat)
+    (hall : ∀ x, x < n → (s.got x).isSome = true) :
+    ∃ k : Nat → Nat,
+      (∀ x, x < n → ∃ a hb, s.got x = some (a, hb) ∧ hb ≤ k x ∧ k x ≤ (s.contribs x).length) ∧
+      Cmp.fold cmpFirstGuard isMax ver (View.loads s n) (false, Cmp.extremum isMax) =
+        Cmp.fold cmpFirstGuard isMax ver
+          ((List.range n).map (fun x => (View.cmpKind isMax).pre (s.contribs x) (k x))) (false, Cmp.extremum isMax) :=
+  value_view_bounds (View.cmpKind isMax) O s hr n hall
+    (fun cells => Cmp.fold cmpFirstGuard isMax ver cells (false, Cmp.extremum isMax))
+
+theorem maxer_value_view (ver : Nat) (O : View.Ords) (s : View.State Cmp.Slot (Nat × Int))
+    (hr : Reachable (· = View.State.init View.maxerKind) (View.Step View.maxerKind O) s) (n : Nat)
+    (hall : ∀ x, x < n → (s.got x).isSome = true) :
+    ∃ k : Nat → Nat,
+      (∀ x, x < n → ∃ a hb, s.got x = some (a, hb) ∧ hb ≤ k x ∧ k x ≤ (s.contribs x).length) ∧
+      Cmp.fold cmpFirstGuard true ver (View.loads s n) (false, Cmp.extremum true) =
+        Cmp.fold cmpFirstGuard true ver
+          ((List.range n).map (fun x => View.maxerKind.pre (s.contribs x) (k x))) (false, Cmp.extremum true) :=
+  comparer_value_view true ver O s hr n hall
+
+theorem miner_value_view (ver : Nat) (O : View.Ords) (s : View.State Cmp.Slot (Nat × Int))
+    (hr : Reachable (· = View.State.init View.minerKind) (View.Step View.minerKind O) s) (n : Nat)
+    (hall : ∀ x, x < n → (s.got x).isSome = true) :
+    ∃ k : Nat → Nat,
+      (∀ x, x < n → ∃ a hb, s.got x = some (a, hb) ∧ hb ≤ k x ∧ k x ≤ (s.contribs x).length) ∧
+      Cmp.fold cmpFirstGuard false ver (View.loads s n) (false, Cmp.extremum false) =
+        Cmp.fold cmpFirstGuard false ver
+          ((List.range n).map (fun x => View.minerKind.pre (s.contribs x) (k x))) (false, Cmp.extremum false) :=
+  comparer_value_view false ver O s hr n hall
+
 /-- **adder_view_handoff.**  Contributions handed off to the reader by a release store / acquire load
 (what a `join` provides) are in its view: a load of the cell made afterwards returns a prefix `k` that
 includes all `seen x` of them. -/
@@ -295,6 +360,26 @@ theorem view_handoff_negative_control :
     View.handoffRun ⟨.rlx, .rlx, .rel, .acq⟩ 1 = some (some (5, 1)) ∧
     View.handoffRun ⟨.rlx, .rlx, .rlx, .acq⟩ 0 = some (some (0, 0)) ∧
     View.handoffRun ⟨.rlx, .rlx, .rel, .rlx⟩ 0 = some (some (0, 0)) := by decide
+
+/-- Non-vacuity of the view-level theorems: two summer slots; slot 0's owner contributes `(1,1)` then
+`(-1,3)`, slot 1's owner `(2,2)`; the reader loads slot 0 STALE (message 1 of 3: only the first
+contribution) and slot 1 fresh.  `value()` = `(1,1) + (2,2)` = the prefixes `k = (1, 1)`; sum and count come
+from the same prefix. -/
+def demoView : List (View.Act Summer.Cell) :=
+  [.wLoad 0 (1, 1) 0, .wStore 0, .wLoad 1 (2, 2) 0, .wLoad 0 (-1, 3) 1, .wStore 0, .wStore 1,
+   .rLoad 0 1, .rLoad 1 1]
+
+example : (View.run View.summerKind ⟨.rlx, .rlx, .rlx, .rlx⟩ (View.State.init View.summerKind) demoView).map
+    (fun s => (View.loads s 2, Summer.sumCells (View.loads s 2), (s.contribs 0).length, (s.contribs 1).length)) =
+    some ([(1, 1), (2, 2)], (3, 3), 2, 1) := by decide
+
+/-- … and a maxer: slot 0 sampled 1 then 3 in period 0, slot 1 sampled 2; the reader sees slot 0 stale -/
+def demoViewMax : List (View.Act (Nat × Int)) :=
+  [.wLoad 0 (0, 1) 0, .wStore 0, .wLoad 0 (0, 3) 1, .wStore 0, .wLoad 1 (0, 2) 0, .wStore 1,
+   .rLoad 0 1, .rLoad 1 1]
+
+example : (View.run View.maxerKind ⟨.rlx, .rlx, .rlx, .rlx⟩ (View.State.init View.maxerKind) demoViewMax).map
+    (fun s => Cmp.fold true true 0 (View.loads s 2) (false, Cmp.extremum true)) = some (true, 2) := by decide
 
 /-! ## The `uint16_t` narrowing: the hypothesis `tidEnd ≤ tidCap` is necessary -/
 
